@@ -43,7 +43,7 @@ ASSUMPTIONS = [
     "only members defined in Python by the generated classes are used as operations (slot wrappers inherited from object are not compared)",
     "non-DBC (decorator-only) classes are not subclassed by the generator (the statement's inheritance clause is about the contract-inheriting base)",
 ]
-RUNS = {"quick": 12000, "thorough": 300000}
+RUNS = {"quick": 40000, "thorough": 600000}
 BUDGET_S = {"quick": 70, "thorough": 1200}
 CHUNK = 200
 
